@@ -30,6 +30,10 @@ type C28Scenario struct {
 	KeyLen   int   `json:"key_len"`   // length of the key strings
 	TTLEvery int   `json:"ttl_every"` // every k-th key is left to its TTL instead of Unlock (0 = never)
 	Held     int   `json:"held"`      // keys kept locked during the measurement (0..8)
+	// Stray is a bit mask of unlock calls that cannot succeed but must not leave state behind either:
+	// 1 = a second Unlock right after the successful one, 2 = a late Unlock of every TTL-expired lock after it expired,
+	// 4 = Unlock of keys that were never locked (one per 4 keys), 8 = Unlock with a wrong id while the key is held.
+	Stray    int   `json:"stray"`
 	Waiters  int   `json:"waiters"`   // every 64th key additionally gets this many queued waiters (0..3) that are granted and unlock in turn
 }
 
@@ -98,8 +102,13 @@ func c28Measure(s C28Scenario, n int) (c28Point, *pbt.Outcome) {
 	}
 	ttlKeys := 0
 	const ttl = 3 * time.Millisecond
+	type expired struct{ key, id string }
+	var late []expired
 	for i := 0; i < n; i++ {
 		k := fmt.Sprintf("%s%d", pad, i)
+		if s.Stray&4 != 0 && i%4 == 0 {
+			_ = l.Unlock(fmt.Sprintf("never-locked-%s%d", pad, i), "no-such-id")
+		}
 		byTTL := s.TTLEvery > 0 && i%s.TTLEvery == 0
 		d := c14Forever
 		if byTTL {
@@ -129,9 +138,18 @@ func c28Measure(s C28Scenario, n int) (c28Point, *pbt.Outcome) {
 			wg.Wait()
 			continue
 		}
+		if s.Stray&8 != 0 && i%3 == 0 {
+			_ = l.Unlock(k, "wrong-"+id)
+		}
+		if byTTL && s.Stray&2 != 0 {
+			late = append(late, expired{k, id})
+		}
 		if !byTTL {
 			if err := l.Unlock(k, id); err != nil {
 				return failf("unlock-error", "Unlock(%s): %v", k, err)
+			}
+			if s.Stray&1 != 0 {
+				_ = l.Unlock(k, id) // duplicate: must fail and leave nothing behind
 			}
 		} else if ttlKeys%2000 == 0 {
 			time.Sleep(2 * ttl) // keep the number of live watchdog goroutines moderate
@@ -146,6 +164,11 @@ func c28Measure(s C28Scenario, n int) (c28Point, *pbt.Outcome) {
 		}
 		time.Sleep(time.Millisecond)
 	}
+	// late unlocks of locks that have expired meanwhile (the deferred Unlock of a holder that overran its TTL)
+	for _, e := range late {
+		_ = l.Unlock(e.key, e.id)
+	}
+	late = nil
 	after := heapNow()
 	p := c28Point{N: n, Retained: int64(after) - int64(before), Queues: queueCount(l)}
 	p.PerKey = float64(p.Retained) / float64(n)
@@ -231,6 +254,7 @@ func genC28(t *rapid.T) C28Scenario {
 	}
 	s.TTLEvery = rapid.SampledFrom([]int{0, 0, 10, 3, 1}).Draw(t, "ttlevery")
 	s.Waiters = rapid.IntRange(0, 3).Draw(t, "waiters")
+	s.Stray = rapid.IntRange(0, 15).Draw(t, "stray")
 	// the largest size dominates the slope and keeps measurement noise
 	// (tens of KB of unrelated heap) far below the 16 bytes/key bound
 	s.Sizes = []int{100, 1000, 10000, 100000}
@@ -244,7 +268,7 @@ func genC28(t *rapid.T) C28Scenario {
 const c28Witness = "per-key-queue-never-pruned"
 
 const c28Rule = "fresh lock.New(); n distinct keys (n = 10^2, 10^3, 10^4, 10^5; 3*10^4 when every key expires by TTL) each locked and then unlocked or left to a 3 ms TTL (every k-th key, k in {never,10,3,1}), " +
-	"0..3 queued waiters on every 64th key, 0..8 other keys held throughout; after all watchdogs exited: runtime.GC x2 and HeapAlloc delta with the lock still alive; " +
+	"0..3 queued waiters on every 64th key, a drawn mix of stray Unlock calls (duplicate, late after expiry, never-locked key, wrong id), 0..8 other keys held throughout; after all watchdogs exited: runtime.GC x2 and HeapAlloc delta with the lock still alive; " +
 	"least-squares slope of retained bytes over n must be < 16 bytes/key; non-trivial = n >= 10^4 with every key released before the measurement"
 
 func TestC28Main(t *testing.T) {
